@@ -1,3 +1,5 @@
+import re
+
 from sly import Parser
 from mindsdb_sql.parser.ast import *
 from mindsdb_sql.parser.ast.drop import DropDatabase, DropView
@@ -26,11 +28,20 @@ from mindsdb_sql.parser.logger import ParserLogger
 from mindsdb_sql.parser.utils import ensure_select_keyword_order, JoinType, tokens_to_string
 
 def unquote_string_token(value, quote):
-    # decode escapes of a quoted string token and remove the quotes
-    value = value.replace('\\"', '"').replace("\\'", "'")
-    if quote == "'":
-        value = value.replace("''", "'")
-    return value.strip(quote)
+    # remove the quotes of a quoted string token and decode its escapes in one pass
+    value = value[1:-1]
+
+    def decode(match):
+        item = match.group(0)
+        if item == "''":
+            return "'"
+        if item[1] in ('\\', '"', "'"):
+            return item[1]
+        # unknown escape sequence is kept as it is
+        return item
+
+    pattern = r"\\.|''" if quote == "'" else r'\\.'
+    return re.sub(pattern, decode, value)
 
 
 def variable_token_to_name(value):
